@@ -367,6 +367,14 @@ def run(ctx) -> None:
         if valid:
             ctx.evaluated()
             oracle(ctx, db, names, out, snap_in, snapshot(db.ds), desc)
+            # do the hypotheses of the dataset-level theorems (Ems.C12.Setting) hold for this input?
+            shared = any(len(ax['coords']) > 1 for ax in db.recipe['depth']['axes'])
+            dsline = D.dataset_str(db.sizes, db.mvars)
+            for k in (0, 1):
+                want = '0' if shared or (k == 1 and has_bounds_var(db)) else '1'
+                hl = f"hyp {k} {dsline} {','.join(names) or '-'} {','.join(ns) or '-'}"
+                items.append((hl, want, dict(desc, op=hl, stream='hyp')))
+            ctx.count('theorem hypotheses hold (kb=0)' if not shared else 'theorem hypotheses do not hold (shared dimension)')
         ctx.nontrivial(key)
 
     # (0) fixed minimal inputs
